@@ -12,8 +12,9 @@ length, with a word or value out of range, or with a digit outside the numeral's
 `wordsToInt_spec`, `*_packedToInt_spec`, `bitsToInt_reject`, `binToInt_reject`, `base85_reject`.
 -/
 import NetaddrVerif.Lemmas.C15LBytes
+import NetaddrVerif.Lemmas.C15LBits
 namespace NV.C15
-open NV NV.Codec
+open NV NV.Codec NV.Py
 
 /-! ## words -/
 
@@ -237,5 +238,230 @@ theorem packed_roundtrip (v : Nat) :
   · rw [(v6_packedToInt_spec _ (beBytes_lt 16 v)).1 (beBytes_length 16 v), (beBytes_shape 16 v h).2.2]
   · rw [(e48_packedToInt_spec _ (beBytes_lt 6 v)).1 (beBytes_length 6 v), (beBytes_shape 6 v h).2.2]
   · rw [(e64_packedToInt_spec _ (beBytes_lt 8 v)).1 (beBytes_length 8 v), (beBytes_shape 8 v h).2.2]
+
+/-! ## bits() -/
+
+/-- the n-digit zero-padded binary spelling: n characters, all 0/1, with value v -/
+theorem padBits_shape (n v : Nat) (hv : v < 2 ^ n) :
+    (padBits n v).length = n ∧ (∀ c ∈ padBits n v, c = '0' ∨ c = '1') ∧ digitsNat 2 (padBits n v) 0 = v := by
+  refine ⟨padBits_length n v, ?_, ?_⟩
+  · intro c hc
+    have := padBits_01 n v c hc
+    simpa [is01] using this
+  · rw [digitsNat_padBits, Nat.mod_eq_of_lt hv]; simp
+
+/-- `int_to_bits`: every word of the big-endian word tuple spelled with exactly `ws` binary
+    digits (zero padded), joined by the separator; IndexError out of range -/
+theorem intToBits_spec (v ws nw : Nat) (sep : List Char) :
+    (v < 2 ^ (nw * ws) → ∃ words, intToWords v ws nw = .ok words ∧
+        intToBits v ws nw sep = .ok (sep.intercalate (words.map (padBits ws)))) ∧
+    (¬ v < 2 ^ (nw * ws) → intToBits v ws nw sep = .error .index) := by
+  constructor
+  · intro hv
+    obtain ⟨words, h1, _, h3, _⟩ := (intToWords_spec v ws nw).1 hv
+    refine ⟨words, h1, ?_⟩
+    simp only [intToBits, h1]
+    show Except.ok _ = _
+    congr 2
+    apply List.map_congr_left
+    intro w hw
+    exact wordBits_spec ws w (h3 w hw)
+  · intro hv
+    simp only [intToBits, (intToWords_spec v ws nw).2 hv]
+    rfl
+
+example : intToBits 0x0a000001 8 4 ['.'] = .ok "00001010.00000000.00000000.00000001".toList := by rfl
+example : intToBits 0x001b774954fd 16 3 ['.'] = .ok "0000000000011011.0111011101001001.0101010011111101".toList := by rfl
+
+/-- `bits_to_int`: with the separator occurrences removed, exactly the strings of `width`
+    binary digits are accepted, with their base-2 value; wrong length or any other character
+    (a digit ≥ 2, sign, space, underscore …) raises ValueError -/
+theorem bitsToInt_spec (s : List Char) (width : Nat) (sep : List Char) :
+    let t := if sep ≠ [] then replaceDel sep s else s
+    (t.length = width ∧ (∀ c ∈ t, c = '0' ∨ c = '1') ∧ 1 ≤ width →
+        bitsToInt s width sep = .ok (Int.ofNat (digitsNat 2 t 0))) ∧
+    (¬ (t.length = width ∧ ∀ c ∈ t, c = '0' ∨ c = '1') → bitsToInt s width sep = .error .value) := by
+  intro t
+  constructor
+  · rintro ⟨hl, h01, hw⟩
+    have hne : t ≠ [] := by intro e; rw [e] at hl; simp at hl; omega
+    have h01' : ∀ c ∈ t, is01 c = true := fun c hc => by simpa [is01] using h01 c hc
+    have hpy := pyInt2_plain t hne (fun c hc => digitVal2_of_is01 c (h01' c hc))
+    have hany : t.any (fun c => !is01 c) = false := by
+      rw [List.any_eq_false]; intro c hc; simp [h01' c hc]
+    have hlt := digitsNat_lt t 0
+    have hvalid : validBits s width sep = true := by
+      simp only [validBits]
+      show (if t.length ≠ width then false else if t.any (fun c => !is01 c) = true then false else inRange2 t width) = true
+      simp only [hl, ne_eq, not_true_eq_false, if_false, hany, Bool.false_eq_true, inRange2, hpy]
+      simp only [decide_eq_true_eq]
+      refine ⟨Int.natCast_nonneg _, ?_⟩
+      rw [hl] at hlt
+      have : (digitsNat 2 t 0 : Int) < (2 : Int) ^ width := by
+        have : digitsNat 2 t 0 < 2 ^ width := by simpa using hlt
+        exact_mod_cast this
+      show (Int.ofNat (digitsNat 2 t 0)) ≤ 2 ^ width - 1
+      simp only [Int.ofNat_eq_natCast]; omega
+    simp only [bitsToInt, hvalid, Bool.not_true, Bool.false_eq_true, if_false]
+    show (match pyInt 2 t with | some n => Except.ok n | none => Except.error Err.value) = _
+    rw [hpy]
+  · intro h
+    have hvalid : validBits s width sep = false := by
+      simp only [validBits]
+      show (if t.length ≠ width then false else if t.any (fun c => !is01 c) = true then false else inRange2 t width) = false
+      by_cases hl : t.length = width
+      · have : ¬ ∀ c ∈ t, c = '0' ∨ c = '1' := fun hh => h ⟨hl, hh⟩
+        have hany : t.any (fun c => !is01 c) = true := by
+          rw [List.any_eq_true]
+          apply Classical.byContradiction
+          intro hn
+          apply this
+          intro c hc
+          have : is01 c = true := by
+            cases hi : is01 c with
+            | true => rfl
+            | false => exact absurd ⟨c, hc, by simp [hi]⟩ hn
+          simpa [is01] using this
+        simp [hl, hany]
+      · simp [hl]
+    simp [bitsToInt, hvalid]
+
+example : bitsToInt "00001010.00000000.00000000.00000001".toList 32 ['.'] = .ok 0x0a000001 := by rfl
+example : bitsToInt "00001010.00000000.00000000.00000002".toList 32 ['.'] = .error .value := by rfl
+example : bitsToInt "00001010.00000000.00000000.0000001".toList 32 ['.'] = .error .value := by rfl
+example : bitsToInt " 0001010.00000000.00000000.00000001".toList 32 ['.'] = .error .value := by rfl
+
+/-- decoder ∘ encoder = id on bit strings, for every word size / word count and every
+    separator that is empty or a single character other than a binary digit (all built-in
+    dialects: '', '.', ':', '-') -/
+theorem bits_roundtrip (v ws nw : Nat) (sep : List Char) (hv : v < 2 ^ (nw * ws)) (hw : 1 ≤ ws * nw)
+    (hsep : sep = [] ∨ ∃ c, sep = [c] ∧ c ≠ '0' ∧ c ≠ '1') :
+    ∃ s, intToBits v ws nw sep = .ok s ∧ bitsToInt s (ws * nw) sep = .ok (Int.ofNat v) := by
+  have hp := pow_pos2 (nw * ws)
+  have hwords : intToWords v ws nw = .ok (wordsLoop ws nw v).reverse := by
+    simp only [intToWords]; rw [if_pos (by omega)]
+  obtain ⟨words, h1, h2⟩ := (intToBits_spec v ws nw sep).1 hv
+  rw [hwords] at h1
+  have hw' : words = (wordsLoop ws nw v).reverse := by injection h1 with h; exact h.symm
+  subst hw'
+  refine ⟨_, h2, ?_⟩
+  have hstrip := replaceDel_intercalate sep ((wordsLoop ws nw v).reverse.map (padBits ws)) (by
+    rcases hsep with h | ⟨c, hc, c0, c1⟩
+    · exact Or.inl h
+    · refine Or.inr ⟨c, hc, ?_⟩
+      intro l hl hcl
+      simp only [List.mem_map] at hl
+      obtain ⟨w, _, rfl⟩ := hl
+      have := padBits_01 ws w c hcl
+      simp [is01, c0, c1] at this)
+  rw [flatten_padBits_words] at hstrip
+  have hv' : v < 2 ^ (ws * nw) := by rw [Nat.mul_comm]; exact hv
+  have hshape := padBits_shape (ws * nw) v hv'
+  have hspec := (bitsToInt_spec (sep.intercalate ((wordsLoop ws nw v).reverse.map (padBits ws))) (ws * nw) sep).1
+  simp only [hstrip] at hspec
+  rw [hspec ⟨hshape.1, hshape.2.1, hw⟩, hshape.2.2]
+
+/-! ## bin -/
+
+/-- `int_to_bin`: Python's `bin(v)` (no leading zeros, '0b0' for 0); IndexError when it needs
+    more than `width` digits, i.e. exactly when v ≥ 2^width -/
+theorem intToBin_spec (v width : Nat) (hw : 1 ≤ width) :
+    (v < 2 ^ width → intToBin v width = .ok ('0' :: 'b' :: Nat.toDigits 2 v)) ∧
+    (¬ v < 2 ^ width → intToBin v width = .error .index) := by
+  have h3 := (toDigits2_spec v 0).2.2 width
+  simp only [intToBin, pyBin, List.drop_succ_cons, List.drop_zero]
+  constructor <;> intro h
+  · have : (Nat.toDigits 2 v).length ≤ width := h3.mpr ⟨h, hw⟩
+    rw [if_neg (by omega)]
+  · have : ¬ (Nat.toDigits 2 v).length ≤ width := fun hh => h (h3.mp hh).1
+    rw [if_pos (by omega)]
+
+example : intToBin 5 32 = .ok "0b101".toList := by rfl
+example : intToBin (2 ^ 32) 32 = .error .index := by rfl
+
+/-- `bin_to_int`: exactly '0b' followed by 1 … width binary digits is accepted, with its
+    base-2 value; a missing prefix, too many digits, no digit, or any other character raises -/
+theorem binToInt_spec (s : List Char) (width : Nat) :
+    (∀ t, s = '0' :: 'b' :: t → t ≠ [] → t.length ≤ width → (∀ c ∈ t, c = '0' ∨ c = '1') →
+        binToInt s width = .ok (Int.ofNat (digitsNat 2 t 0))) ∧
+    (¬ (∃ t, s = '0' :: 'b' :: t ∧ t ≠ [] ∧ t.length ≤ width ∧ ∀ c ∈ t, c = '0' ∨ c = '1') →
+        binToInt s width = .error .value) := by
+  constructor
+  · intro t hs hne hl h01
+    subst hs
+    have h01' : ∀ c ∈ t, is01 c = true := fun c hc => by simpa [is01] using h01 c hc
+    have hpy := pyInt2_plain t hne (fun c hc => digitVal2_of_is01 c (h01' c hc))
+    have hany : t.any (fun c => !is01 c) = false := by
+      rw [List.any_eq_false]; intro c hc; simp [h01' c hc]
+    have hlt := digitsNat_lt t 0
+    have hvalid : validBin ('0' :: 'b' :: t) width = true := by
+      simp only [validBin, List.isPrefixOf, beq_self_eq_true, Bool.and_self, Bool.not_true, Bool.false_eq_true,
+        if_false, List.drop_succ_cons, List.drop_zero, hany, inRange2, hpy]
+      rw [if_neg (by omega)]
+      simp only [decide_eq_true_eq]
+      refine ⟨Int.natCast_nonneg _, ?_⟩
+      have h2 : digitsNat 2 t 0 < 2 ^ width := by
+        have : 2 ^ t.length ≤ 2 ^ width := Nat.pow_le_pow_right (by decide) hl
+        have : digitsNat 2 t 0 < 2 ^ t.length := by simpa using hlt
+        omega
+      have : (digitsNat 2 t 0 : Int) < (2 : Int) ^ width := by exact_mod_cast h2
+      show (Int.ofNat (digitsNat 2 t 0)) ≤ 2 ^ width - 1
+      simp only [Int.ofNat_eq_natCast]; omega
+    simp only [binToInt, hvalid, Bool.not_true, Bool.false_eq_true, if_false, List.drop_succ_cons, List.drop_zero, hpy]
+  · intro h
+    have hvalid : validBin s width = false := by
+      cases hv : validBin s width with
+      | false => rfl
+      | true =>
+        exfalso; apply h
+        simp only [validBin] at hv
+        by_cases hp : (['0', 'b'].isPrefixOf s) = true
+        · match s, hp with
+          | [], hp => simp [List.isPrefixOf] at hp
+          | [_], hp => simp [List.isPrefixOf] at hp
+          | a :: b :: t, hp =>
+            simp only [List.isPrefixOf, Bool.and_true, Bool.and_eq_true, beq_iff_eq] at hp
+            obtain ⟨rfl, rfl⟩ := hp
+            simp only [List.isPrefixOf, beq_self_eq_true, Bool.and_self, Bool.not_true, Bool.false_eq_true,
+              if_false, List.drop_succ_cons, List.drop_zero] at hv
+            by_cases hl : t.length > width
+            · simp [hl] at hv
+            · simp only [hl, if_false] at hv
+              by_cases hany : t.any (fun c => !is01 c) = true
+              · simp [hany] at hv
+              · simp only [hany, Bool.false_eq_true, if_false] at hv
+                refine ⟨t, rfl, ?_, by omega, ?_⟩
+                · intro e; subst e; simp [inRange2, pyInt, stripWs] at hv
+                · intro c hc
+                  have : is01 c = true := by
+                    cases hi : is01 c with
+                    | true => rfl
+                    | false =>
+                      exact absurd (List.any_eq_true.mpr ⟨c, hc, by simp [hi]⟩) hany
+                  simpa [is01] using this
+        · simp [hp] at hv
+    simp [binToInt, hvalid]
+
+example : binToInt "0b101".toList 32 = .ok 5 := by rfl
+example : binToInt "0b10b1".toList 32 = .error .value := by rfl
+example : binToInt "0b1_1".toList 32 = .error .value := by rfl
+example : binToInt ('0' :: 'b' :: List.replicate 33 '1') 32 = .error .value := by rfl
+example : binToInt "0b".toList 32 = .error .value := by rfl
+
+/-- decoder ∘ encoder = id on Python binary literals -/
+theorem bin_roundtrip (v width : Nat) (hw : 1 ≤ width) (hv : v < 2 ^ width) :
+    ∃ s, intToBin v width = .ok s ∧ binToInt s width = .ok (Int.ofNat v) := by
+  refine ⟨_, (intToBin_spec v width hw).1 hv, ?_⟩
+  obtain ⟨t1, t2, t3⟩ := toDigits2_spec v 0
+  rw [(binToInt_spec _ width).1 (Nat.toDigits 2 v) rfl Nat.toDigits_ne_nil ((t3 width).mpr ⟨hv, hw⟩)
+    (fun c hc => by simpa [is01] using t1 c hc), t2]
+  simp
+
+/-- the value 2^width is rejected by the encoders of every width -/
+theorem encoders_reject_two_pow (ws nw : Nat) (sep : List Char) (hw : 1 ≤ nw * ws) :
+    intToWords (2 ^ (nw * ws)) ws nw = .error .index ∧ intToBits (2 ^ (nw * ws)) ws nw sep = .error .index ∧
+    intToBin (2 ^ (nw * ws)) (nw * ws) = .error .index :=
+  ⟨(intToWords_spec _ ws nw).2 (Nat.lt_irrefl _), (intToBits_spec _ ws nw sep).2 (Nat.lt_irrefl _),
+   (intToBin_spec _ _ hw).2 (Nat.lt_irrefl _)⟩
 
 end NV.C15
